@@ -273,7 +273,7 @@ theorem decodeCmd_isSome_iff (o : JObj) (p : Nat) (d : List Nat) (f : String) :
       · rw [← fieldStr_isSome]; simp
       · rw [← fieldStr_isSome]; simp
       · rw [← fieldVal_isSome, ← fieldVal_isSome]
-        cases fieldVal (jget o "phase") <;> cases fieldVal (jget o "body") <;> simp
+        cases fieldVal (jget o "phase") <;> cases fieldVal (jget o "body") <;> simp [and_assoc]
       · rw [← fieldStr_isSome, ← fieldMood_isSome]
         cases fieldStr (jget o "mailbox") <;> cases fieldMood (jget o "mood") <;> simp
       · simp
@@ -290,6 +290,8 @@ structure WellTyped (o : JObj) : Prop where
   scalar : ∀ k ∈ ["id", "ping", "phase", "body"], ∀ v, jget o k = some v → v.isScalar = true
   mood : ∀ v, jget o "mood" = some v → v.isStrOrNull = true
   cv : ∀ v, jget o "client_version" = some v → v.isCv = true
+  /-- the integers among the stored scalars are signed 64-bit integers (what SQLite can hold; K-int64-overflow) -/
+  int64 : ∀ k ∈ ["id", "phase", "body"], ∀ v, jget o k = some v → v.fitsInt64 = true
 
 theorem absentOr_of {p : JVal → Bool} {x : Option JVal} (h : ∀ v, x = some v → p v = true) :
     absentOr p x = true := by
@@ -308,7 +310,8 @@ theorem WellTyped.inDomain {o : JObj} (h : WellTyped o) : InDomain o := by
     · exact absentOr_of (h.ident "nameplate" (by simp))
     · exact absentOr_of (h.ident "nameplate" (by simp))
     · exact absentOr_of (h.ident "mailbox" (by simp))
-    · exact ⟨absentOr_of (h.scalar "phase" (by simp)), absentOr_of (h.scalar "body" (by simp))⟩
+    · exact ⟨absentOr_of (h.scalar "phase" (by simp)), absentOr_of (h.scalar "body" (by simp)),
+        absentOr_of (h.int64 "phase" (by simp)), absentOr_of (h.int64 "body" (by simp)), absentOr_of (h.int64 "id" (by simp))⟩
     · exact ⟨absentOr_of (h.ident "mailbox" (by simp)), absentOr_of h.mood⟩
     · trivial
 
@@ -321,7 +324,11 @@ theorem decode_total_on_domain {o : JObj} (h : WellTyped o) (p : Nat) (d : List 
 /-- non-vacuity: a well-typed `bind` with nested junk under an unread key; and the refused shapes -/
 example : WellTyped [("type", .str "bind"), ("appid", .str "a"), ("side", .str "s"),
     ("client_version", .pair (.str "python") .null), ("junk", .other)] := by
-  refine ⟨?_, ?_, ?_, ?_⟩ <;> decide
+  refine ⟨?_, ?_, ?_, ?_, ?_⟩ <;> decide
+/-- an `add` whose id is 2^63 is outside the domain (the code raises OverflowError: K-int64-overflow); 2^63 - 1 is inside -/
+example : decodeCmd [("type", .str "add"), ("phase", .str "p"), ("body", .str "b"), ("id", .num 9223372036854775808)] 0 [] "" = none ∧
+    decodeCmd [("type", .str "add"), ("phase", .str "p"), ("body", .str "b"), ("id", .num 9223372036854775807)] 0 [] "" =
+      some (.add (some (.str "p")) (some (.str "b"))) := by decide
 example : decodeCmd [("type", .str "bind"), ("appid", .str "a"), ("side", .str "s"),
     ("client_version", .pair (.str "python") .null), ("junk", .other)] 0 [] "" =
       some (.bind (some "a") (some "s") (some "python") none) := by decide
